@@ -745,7 +745,6 @@ func (y yieldingStore) Open(ctx context.Context, sid, stream string) error {
 	return y.MemoryEventStore.Open(ctx, sid, stream)
 }
 
-
 // c10Client is what the scenario needs of an HTTP stack: the in-process round tripper under virtual time, or
 // (c10Real) net/http on a loopback socket.
 type c10Client interface {
